@@ -114,6 +114,13 @@ func effDirs(p *NetPol) []string {
 	return pt
 }
 
+// insertRule: the added rule goes to a drawn position among the existing ones (rules are a union: the position means nothing)
+func insertRule(rs []Rule, r Rule, pos int) []Rule {
+	out := append([]Rule{}, rs[:pos]...)
+	out = append(out, r)
+	return append(out, rs[pos:]...)
+}
+
 func genC14(t *rapid.T) *C14Case {
 	wa := GenWorld(t, GenCfg{NoNamedRisk: true})
 	wb := wa.Clone()
@@ -147,10 +154,10 @@ func genC14(t *rapid.T) *C14Case {
 		p := &wb.NPs[rapid.IntRange(0, len(wb.NPs)-1).Draw(t, "k")]
 		// only in a direction the policy already governs *effectively* (DESIGN C14(a))
 		if dirAffected(p, "Ingress") && (rapid.Bool().Draw(t, "ing") || !dirAffected(p, "Egress")) {
-			p.Ingress = append(p.Ingress, genRule(t, "newin", false, cfg))
+			p.Ingress = insertRule(p.Ingress, genRule(t, "newin", false, cfg), rapid.IntRange(0, len(p.Ingress)).Draw(t, "newinpos"))
 			applied = true
 		} else if dirAffected(p, "Egress") {
-			p.Egress = append(p.Egress, genRule(t, "neweg", true, cfg))
+			p.Egress = insertRule(p.Egress, genRule(t, "neweg", true, cfg), rapid.IntRange(0, len(p.Egress)).Draw(t, "newegpos"))
 			applied = true
 		}
 		c.Rel = "sup"
